@@ -415,6 +415,33 @@ def _apply_method(self, ex, obj, meth):
 Callee.apply_method = _apply_method
 
 
+def _apply_functional(self, ex, args, key):
+    """caller-side use of a FUNCTIONAL method contract (operators, neg, ...): the result is a new object whose coefficients are given by
+    the contract's `fvalue`; `requires` become obligations; the operands are not written.  args: parameter name -> ObjV / scalar value."""
+    con = self.c; st = ex.st
+    if not hasattr(con, 'fvalue'): raise Undecided('%s has no functional contract' % key)
+    if make_alg(con.alg).name != st.alg.name: raise Undecided('%s has another cell algebra' % key)
+    pre = {}; names = {}; bound = dict(args); objs = [a for a in args.values() if isinstance(a, E.ObjV)]
+    for nm, v in args.items():
+        if isinstance(v, E.ObjV):
+            d = v.attrs.get('data')
+            if not isinstance(d, View): raise Undecided('operand of %s has no data array' % key)
+            st.whole(d)
+            if ex.entails(d.length == ex.D) is not True: raise Undecided('operand of %s is not a full-length array' % key)
+            pre[nm + '.data'] = st.heap[d.base][0]; names[nm + '.data'] = d.base
+        elif isinstance(v, E.NdV): bound[nm] = E.Cell(v.t)
+        elif not isinstance(v, (E.IntV, E.Cell)): raise Undecided('operand kind %s for %s' % (type(v).__name__, key))
+    sub = _SubCtx(ex, pre, names, bound, con)
+    for r in con.requires(sub): st.add_oblig('callee %s requires' % con.qual.split('.')[-1], r, 'callee-pre')
+    nb = st.new_base(ex.D, name='ret' + con.qual.split('.')[-1]); R = st.heap[nb][0]
+    st.fresh += 1; q = z3.Int('j!f%d' % st.fresh)
+    f = z3.ForAll([q], z3.Implies(z3.And(0 <= q, q < ex.D), z3.Select(R, q) == con.fvalue(sub, q)))
+    sub.ensured = [f]; st.assume.append(f); st.callee_log.append((con, sub)); sub.assumed = True
+    for d_ in list(con.spec_instances(sub, z3.IntVal(0))): st.assume.append(d_)
+    return E.ObjV(objs[0].cls, {'data': View(nb, z3.IntVal(0), 1, ex.D)})
+Callee.apply_functional = _apply_functional
+
+
 def _is_spec_definition(f): return False
 
 
